@@ -123,6 +123,7 @@ pub fn c03_check(input: &[u8]) -> Vec<Fail> {
     let mut out = vec![];
     let z = classify_locale(input);
     let r = guard(|| Locale::from_bytes(input));
+    mon::note_outcome(mon::outcome_code(&r));
     match (&z, &r) {
         (Zone::MustReject(why), Err(p)) => out.push(fail("must-reject-panicked", format!("ill-formed ({}) must return an error, but panicked: {}", why, p))),
         (_, Err(p)) => out.push(fail("panic", format!("Locale::from_bytes panicked: {}", p))),
@@ -212,8 +213,8 @@ pub fn run_c03(ctx: &mut Ctx) {
         // the judged call comes first: it must be the first library call on this input, otherwise a
         // statistics-only parse would absorb state left behind by the previous input
         ctx.judge_bytes(b, &mut |c| c03_check(c));
-        let r = guard(|| Locale::from_bytes(b));
-        let key: &'static str = match (z.name(), outcome_name(&r)) {
+        let lib = mon::outcome_str(mon::take_outcome());
+        let key: &'static str = match (z.name(), lib) {
             ("must_accept", "ok") => "zone:must_accept/ok",
             ("must_accept", "err") => "zone:must_accept/err",
             ("must_reject", "ok") => "zone:must_reject/ok",
@@ -238,7 +239,7 @@ pub fn run_c03(ctx: &mut Ctx) {
         }
         let cat = format!("{}:{}", z.name(), z.reason());
         if ctx.wants_sample(&cat) && refspec::n_subtags(b) >= 2 {
-            ctx.sample(&cat, || json!({"input": lossy(b), "zone": z.name(), "reason": z.reason(), "library": outcome_name(&r)}));
+            ctx.sample(&cat, || json!({"input": lossy(b), "zone": z.name(), "reason": z.reason(), "library": lib}));
         }
     });
     // G-struct with by-construction expectations (guards the oracle as well as the library)
@@ -271,8 +272,18 @@ pub fn run_c03(ctx: &mut Ctx) {
 
 pub fn c13_check(input: &[u8]) -> Vec<Fail> {
     let mut out = vec![];
-    let li = guard(|| LanguageIdentifier::from_bytes(input));
-    let lo = guard(|| Locale::from_bytes(input));
+    // the order of the two calls alternates with the input (a differential check must not always let the
+    // second parser run directly after the first on the same bytes: state the first leaves behind would then
+    // always be absorbed by the same, forgiving, call)
+    let (li, lo);
+    if input.iter().fold(input.len(), |a, b| a.wrapping_mul(31).wrapping_add(*b as usize)) % 2 == 0 {
+        li = guard(|| LanguageIdentifier::from_bytes(input));
+        lo = guard(|| Locale::from_bytes(input));
+    } else {
+        lo = guard(|| Locale::from_bytes(input));
+        li = guard(|| LanguageIdentifier::from_bytes(input));
+    }
+    mon::note_outcome(mon::outcome_code(&li) | (mon::outcome_code(&lo) << 2));
     if let Err(p) = &li {
         out.push(fail("panic", format!("LanguageIdentifier::from_bytes panicked: {}", p)));
     }
@@ -352,9 +363,8 @@ pub fn run_c13(ctx: &mut Ctx) {
         // the judged call comes first: it must be the first library call on this input, otherwise a
         // statistics-only parse would absorb state left behind by the previous input
         ctx.judge_bytes(b, &mut |c| c13_check(c));
-        let a = guard(|| LanguageIdentifier::from_bytes(b));
-        let c = guard(|| Locale::from_bytes(b));
-        let key: &'static str = match (outcome_name(&a), outcome_name(&c)) {
+        let oc = mon::take_outcome();
+        let key: &'static str = match (mon::outcome_str(oc), mon::outcome_str(oc >> 2)) {
             ("ok", "ok") => "langid_ok/locale_ok",
             ("ok", "err") => "langid_ok/locale_err",
             ("err", "ok") => "langid_err/locale_ok",
@@ -382,6 +392,20 @@ pub fn c04_string_facts(what: &str, s: &str, observed_canon: &str, facts: &[&'st
     if s.split('-').any(|t| t.is_empty()) {
         out.push(fail("empty-subtag", format!("{} to_string() = {:?} has an empty subtag", what, s)));
     }
+    // a library that supports well-formed other extensions (C03 allows it) prints them somewhere in front of
+    // -x-; the statement fixes the form of everything else, so they are taken out before the comparison
+    let stripped;
+    let s: &str = match refspec::strip_other_extensions(s) {
+        Some((rest, n)) if n > 0 => {
+            stripped = rest;
+            &stripped
+        }
+        Some(_) => s,
+        None => {
+            out.push(fail("not-well-formed", format!("{} to_string() = {:?} contains an extension singleton other than t/u/x whose body is not a well-formed other extension", what, s)));
+            s
+        }
+    };
     if s != observed_canon {
         out.push(fail("canonical-form", format!("{} to_string() = {:?}, independent canonicaliser over the getters gives {:?}", what, s, observed_canon)));
     }
@@ -443,6 +467,7 @@ pub fn c04_check(input: &[u8]) -> Vec<Fail> {
         Ok(Ok(l)) => {
             out.extend(c04_check_locale_value("Locale", &l));
             let s = l.to_string();
+            mon::note_text(s.clone());
             match guard(|| unic_locale_impl::canonicalize(input)) {
                 Ok(Ok(c)) => {
                     if c != s {
@@ -554,6 +579,7 @@ pub fn c05_check_langid_value(what: &str, li: &LanguageIdentifier) -> Vec<Fail> 
 pub fn c05_check(input: &[u8]) -> Vec<Fail> {
     let mut out = vec![];
     if let Ok(Ok(l)) = guard(|| Locale::from_bytes(input)) {
+        mon::note_text(l.to_string());
         out.extend(c05_check_locale_value("parsed Locale", &l));
         // canonicalize idempotent
         if let Ok(Ok(c1)) = guard(|| unic_locale_impl::canonicalize(input)) {
@@ -588,6 +614,7 @@ pub fn c05_check(input: &[u8]) -> Vec<Fail> {
 fn cmp_pair(a: &[u8], b: &[u8], what: &str) -> Vec<Fail> {
     let mut out = vec![];
     let (ra, rb) = (guard(|| Locale::from_bytes(a)), guard(|| Locale::from_bytes(b)));
+    mon::note_outcome(mon::outcome_code(&ra));
     match (&ra, &rb) {
         (Err(p), _) | (_, Err(p)) => out.push(fail(format!("{}:panic", what), p.clone())),
         (Ok(Ok(x)), Ok(Ok(y))) => {
@@ -826,7 +853,7 @@ pub fn run_c09(ctx: &mut Ctx) {
             // judged call first (see run_c03)
             let tg = tagged.clone();
             ctx.judge_bytes(&tg, &mut |c| c09_check_masks(c));
-            let ok = Locale::from_bytes(b).is_ok();
+            let ok = mon::take_outcome() & 3 == 1;
             ctx.count(if ok { "pair:both-expected-ok" } else { "pair:both-expected-err" });
             if refspec::n_subtags(b) >= 2 {
                 ctx.sig(refspec::class_seq_hash(9, b, (mode as u64) << 1 | ok as u64));
@@ -843,7 +870,7 @@ pub fn run_c09(ctx: &mut Ctx) {
             ctx.evals += 1;
             ctx.count(label);
             let fails = c09_check_pair(label, &a, &b);
-            let ok = Locale::from_bytes(&a).is_ok();
+            let ok = mon::take_outcome() & 3 == 1;
             ctx.count(if ok { "pair:both-expected-ok" } else { "pair:both-expected-err" });
             ctx.sig(refspec::class_seq_hash(mon::SigH::new(0).b(label.as_bytes()).fin(), &a, ok as u64));
             if ctx.wants_sample(label) {
